@@ -55,6 +55,14 @@ for raw in open(script):
     cmd = raw.rstrip('\\n')
     if cmd.startswith('#sleep '):
         time.sleep(float(cmd.split()[1])); continue
+    if cmd.startswith('#wait '):
+        # released by the observer: it creates the named file next to the script
+        log.write(json.dumps(['wait', cmd.split()[1]]) + '\\n')
+        gate = os.path.join(os.path.dirname(script), cmd.split()[1])
+        t_end = time.monotonic() + 120
+        while not os.path.exists(gate) and time.monotonic() < t_end:
+            time.sleep(0.02)
+        continue
     if cmd.startswith('#drain'):
         # everything ExaBGP writes until it has been silent for the given time is logged (events, late answers)
         quiet = float(cmd.split()[1])
@@ -106,6 +114,9 @@ class Daemon:
                 'exabgp_tcp_port': str(self.port),
                 'exabgp_tcp_bind': '',
                 'exabgp_daemon_drop': 'false',
+                # started as root ExaBGP switches to exabgp.daemon.user (nobody) whatever daemon.drop says; the interpreter of
+                # this sandbox lives under /root (0700), so a reload, which checks every `run` program again, would refuse it
+                'exabgp_daemon_user': 'root',
                 'exabgp_daemon_daemonize': 'false',
                 'exabgp_api_cli': 'false',
                 'exabgp_log_enable': 'true',
@@ -166,6 +177,20 @@ class Daemon:
                     return ls
                 raise Inconclusive(f'the daemon exited (rc {self.proc.returncode}) before {name} was complete: ' + self.tail(300))
             time.sleep(0.05)
+
+    def release(self, name: str) -> None:
+        with open(self.path(name), 'w') as f:
+            f.write('go')
+
+    def signal(self, sig: int) -> None:
+        if self.alive():
+            os.kill(self.proc.pid, sig)
+
+    def rewrite_conf(self, conf_text: str) -> None:
+        tmp = self.path('conf.new')
+        with open(tmp, 'w') as f:
+            f.write(conf_text.replace('@DIR@', self.dir).replace('@PY@', PY))
+        os.replace(tmp, self.path('conf'))
 
     def stop(self) -> None:
         if self.proc is not None and self.proc.poll() is None:
